@@ -53,7 +53,7 @@ def judge(ctx, p, rng=None):
         return
     # the same pair through the other ways in: a path, a file beyond
     # 64 KiB, a real open file, a load with command-line overrides
-    want = [rng.choice(["path", "padded", "fobj"]), "override"]
+    want = [rng.choice(["path", "padded", "fobj", "fobj-bytes"]), "override"]
     for label, exp, obs in cc.entry_variants(ctx, p, rng, want):
         ctx.res.count("entry_" + label.split()[0])
         judge_one(ctx, p, exp, obs, label)
